@@ -63,7 +63,20 @@ def code_of(line: str) -> str:
     return line[41:45]
 
 
-def only_array_halves_merged(first: dict[str, str], second: dict[str, str]) -> bool:
+def joined_keys(gwy) -> set[str]:
+    """Timestamps of the stored messages that carry more elements than their own packet (live-joined halves)."""
+    elem = {"000A": 12, "22C9": 12}
+    out: set[str] = set()
+    msgs = [m for d in gwy.devices for m in d._msg_db]
+    for tcs in gwy.systems:
+        msgs += list(tcs._msgs.values()) + [m for z in tcs.zones for m in z._msgs.values()]
+    for m in msgs:
+        if m.code in elem and isinstance(m.payload, list) and len(m.payload) * elem[m.code] > len(m._pkt.payload):
+            out.add(m._pkt.dtm.isoformat(timespec="microseconds"))
+    return out
+
+
+def only_array_halves_merged(first: dict[str, str], second: dict[str, str], joined: set[str] = frozenset()) -> bool:
     """True if `second` is `first` minus array halves that a restore re-joins (recorded finding).
 
     The library joins a 000A/22C9 ' I' to the preceding ' I' of the same code and source when they are
@@ -71,7 +84,8 @@ def only_array_halves_merged(first: dict[str, str], second: dict[str, str]) -> b
     superseded one) may have arrived between the two halves, so both were kept; restored, they are
     adjacent and the second absorbs the first (with three relatives in a row the joins chain).  Only that
     pattern is recognised here: a lost packet of those codes that had a relative - an ' I' of the same code
-    and source - less than 3 s away in the snapshot it was lost from.
+    and source - less than 3 s away in the snapshot it was lost from, or that the live gateway holds as a
+    joined message (more elements than its own packet carries: its first half is no longer in the snapshot).
     """
     import datetime as _dt
 
@@ -83,6 +97,8 @@ def only_array_halves_merged(first: dict[str, str], second: dict[str, str]) -> b
     for k, v in lost.items():
         if code_of(v) not in ("000A", "22C9") or v[4:6] != " I":
             return False
+        if k in joined:  # live, this message had absorbed an earlier half that the snapshot no longer holds
+            continue
         t0 = _dt.datetime.fromisoformat(k)
         if not any(  # a relative (same code, same source, ' I') less than 3 s away, on either side
             k2 != k and code_of(v2) == code_of(v) and v2[4:6] == " I" and v2[11:20] == v[11:20] and abs((_dt.datetime.fromisoformat(k2) - t0).total_seconds()) < 3.0
@@ -208,6 +224,7 @@ async def check_snapshot(loop, ctx, rig: Rig, include_expired: bool, meta: dict[
         return
     ctx.count("snapshots")
     content_check(ctx, gwy_a, pkts_a, include_expired, meta)
+    joined_a = joined_keys(gwy_a)
 
     try:
         gwy_b = await fresh_gateway(loop, rig, gwy_a._vrf_raw_schema, gwy_a._vrf_raw_pkts, cfg)
@@ -234,7 +251,7 @@ async def check_snapshot(loop, ctx, rig: Rig, include_expired: bool, meta: dict[
             ctx.count("fixpoint.schema_compared")
         if pkts_b != pkts_a and lost_only_expired(gwy_b, pkts_a, pkts_b):
             ctx.count("fixpoint.expired_purged")
-        elif pkts_b != pkts_a and only_array_halves_merged(pkts_a, pkts_b):
+        elif pkts_b != pkts_a and only_array_halves_merged(pkts_a, pkts_b, joined_a):
             ctx.violate("C16|fixpoint|array-halves-rejoined-on-restore", "two halves of an array (000A/22C9) that were kept apart live are joined when restored: the snapshot loses a packet", {"diff": diff_pkts(pkts_a, pkts_b), "stack": rig.stack, "history": meta})
         elif pkts_b != pkts_a:
             d = diff_pkts(pkts_a, pkts_b)
@@ -263,7 +280,7 @@ async def check_snapshot(loop, ctx, rig: Rig, include_expired: bool, meta: dict[
             ctx.count("idempotence.compared")
             if pkts_c != ref_pkts and lost_only_expired(g, ref_pkts, pkts_c):
                 ctx.count("idempotence.expired_purged")
-            elif pkts_c != ref_pkts and only_array_halves_merged(ref_pkts, pkts_c):
+            elif pkts_c != ref_pkts and only_array_halves_merged(ref_pkts, pkts_c, joined_a):
                 ctx.violate("C16|fixpoint|array-halves-rejoined-on-restore", "two halves of an array (000A/22C9) that were kept apart live are joined when restored: the snapshot loses a packet", {"diff": diff_pkts(ref_pkts, pkts_c), "stack": rig.stack, "history": meta})
             elif pkts_c != ref_pkts:
                 d = diff_pkts(ref_pkts, pkts_c)
@@ -334,7 +351,7 @@ async def run_history(loop: vloop.VirtualLoop, ctx, h: hist.History, stack: str,
             step = 1
         if any(j in at for j in range(i, i + step)):
             include_expired = rng.random() < 0.5
-            meta = dict(h.meta, lists=lists, full_gaps=rig.full_gaps, prefix=i + step, of=len(lines), eavesdrop=eavesdrop, stack=stack, include_expired=include_expired, double_reads_at=list(doubles), packets=[f"{d} {f}" for d, f in lines[: i + step]])
+            meta = dict(h.meta, shard=ctx.shard, trial=trial, lists=lists, full_gaps=rig.full_gaps, prefix=i + step, of=len(lines), eavesdrop=eavesdrop, stack=stack, include_expired=include_expired, double_reads_at=list(doubles), packets=[f"{d} {f}" for d, f in lines[: i + step]])
             await check_snapshot(loop, ctx, rig, include_expired, meta, cfg)
             ctx.seen(f"{h.sig()}|{stack}|{int(eavesdrop)}|{int(include_expired)}")
         i += step
